@@ -7,7 +7,7 @@
     to a temporary sibling and renamed over the destination; a failing patch leaves the destination as it was.
     With the round-trip theorem of C01 the destination holds exactly the source afterwards, in every case. *)
 From Coq Require Import ZArith List Bool Lia.
-From Copia Require Import Gen.Constants Model.LoopLib Model.Checksum Model.Delta Proofs.DeltaProofs Gen.SyncFilesGen.
+From Copia Require Import Gen.Constants Model.LoopLib Model.Checksum Model.Delta Proofs.DeltaProofs Gen.SigTableGen Proofs.TieSigTable Gen.SyncFilesGen.
 Import ListNotations.
 Open Scope Z_scope.
 
@@ -45,7 +45,8 @@ Theorem tie_sync_files (checked verify : bool) (source : list Z) (dest : option 
                    forall o, patch digest H deq checked verify b (compute_delta digest H deq bs (gen_signature digest H bs b) source) <> POk o).
 Proof.
   cbv zeta. unfold g_sync_files, sync_files_dest, exists_file, read_file, write_file, rename_file, patch_out. cbv zeta.
-  cbn [f_dest f_tmp]. destruct dest as [b|].
+  unfold SyncFilesGen.bsz.
+  cbn [f_dest f_tmp]. destruct dest as [b|]; [rewrite (tie_sig_generate digest H bs b)|].
   - cbn [negb]. destruct (list_eqb Z.eqb source b) eqn:Ee.
     + cbn [fst snd f_dest f_tmp]. split; [reflexivity|]. split; [reflexivity|]. split; [discriminate|].
       intros (b' & Hb & Hne & _). inversion Hb; subst. congruence.
